@@ -23,10 +23,21 @@ ASSUMPTIONS = [
 ]
 
 
+# replays of the recorded OPEN findings of the convergence clause (F-C02-4..7): the `settle` oracle must keep
+# reporting each with its own classification (KNOWN-FINDING); a different non-convergence in them is a violation
+OPEN_FINDING_SCENARIOS = [
+    "corpus/system-findings/c02-h-request-for-lost-class.ops",
+    "corpus/system-findings/c02-g-parent-shrinks-and-regrows.ops",
+    "corpus/system-findings/c02-a2-class-added-after-mapping.ops",
+    "corpus/system-findings/c02-f2-child-readded-during-roll.ops",
+]
+
+
 def check(ctx):
     # body of CertifiedKey::wants_update regenerated from the source; C02Src: generated definition = model function
     return ca_common.run(ctx, "KrillModel.Props.C02", "C02", ASSUMPTIONS,
-                         translate=[("pure_fns:C02", "PureFns.lean")], extra_modules=["KrillModel.Props.C02Src"])
+                         translate=[("pure_fns:C02", "PureFns.lean")], extra_modules=["KrillModel.Props.C02Src"],
+                         finding_scenarios=OPEN_FINDING_SCENARIOS)
 
 
 def replay(ctx, data):
